@@ -71,6 +71,24 @@ CHECKS = {
             "Trusts the reference interpreter; values after an error item or the end are not specified and only required not to panic.", "6/C18"),
 }
 
+# additions of the ninth and tenth rounds, appended to the level text
+EXTRA = {
+    "C01": " bits(k, e) for every k = 1..64 over k one-bit columns x 12 patterned values.",
+    "C02": " Every curated program also with the defaults edited through the public signals field after loading (constructor call carries the edited defaults; whole run equals a test loaded with them), and through run_iter, the deprecated name of try_iter.",
+    "C03": " OutputResultEntry / DataRow values built through their public fields: 8 widths x 3 signal kinds x 19 outputs x 19 expected values against the truth table (check, is_checked, value-level check, failing_outputs).",
+    "C07": " Value alphabet: boundary values, runs of ones of every length at every position and their complements, fixed mixed constants (64 quick / 8192 thorough); headers of 65..130 columns; variables named like X and Z.",
+    "C08": " Operator table also over a wide operand set (every power of two, predecessor, negation, mixed constants; each pair once); ite whose condition cannot be evaluated; names spelt like the built-in functions.",
+    "C10": " T9: signal widths 0, 65, 100, 128, 2^20, usize::MAX.",
+    "C12": " Sequences of 2..5 declarations with a duplicate anywhere; malformed texts also as the dataString of a rendered .dig document (File::parse + load_test).",
+    "C13": " Every first layout twice: signals answering values of their own, and all answering the same value.",
+    "C14": " A driver that also lists the declared signal itself in its answers (every position, every call / later calls / never) and declarations that merely rename an output under Z and X.",
+    "C15": " try_iter over the public static_test::Driver + From<DataRow> for StaticDataRow equals try_iter_static.",
+    "C16": " File::open (scratch file) and str::parse::<File>() compared with File::parse on every sixteenth generated document and every tenth corruption.",
+    "C17": " One seed runs against a device that reports an output as X from the second call on; draws in the condition of an ite with equal branches.",
+    "C19": " Comments containing a carriage return.",
+    "C20": " Comments containing a carriage return; 70 000 lines inserted in front of a row.",
+}
+
 NOT_YET = "check under construction (not yet registered); see DESIGN.md section 6"
 
 def main():
@@ -83,7 +101,7 @@ def main():
             "evidence_file": f"/verif/evidence/{pid}.json",
             "replay_cmd_template": "./check replay {path}",
             "engine": engine,
-            "level_claimed": {"category": "model_checking", "text": text, "design_ref": f"DESIGN.md section {ref}"},
+            "level_claimed": {"category": "model_checking", "text": text + EXTRA.get(pid, ""), "design_ref": f"DESIGN.md section {ref}"},
             "level_note": note + " Beyond the space named above the check crosses small exhaustive spaces with the standing dimensions of DESIGN.md section 11.5 (histories of rows, callers that carry on after error items, coinciding names and values, one loaded test used twice, iterators advanced with nth, dropped mid-cycle or moved to another thread, drivers with io::Error, signal lists cloned from loaded tests) and holds a few cases far beyond the enumerated sizes; the evidence file lists every space with its size.",
             "technique": technique,
         })
